@@ -9,7 +9,7 @@ PID=$1; DIR=$(cd "$2" && pwd); TIER=${3:-quick}
 EV=/tmp/verif-eval; RW=/tmp/repo-eval-$$
 HEAD=$(git -C /verif rev-parse HEAD)
 if [ ! -d $EV ]; then git -C /verif worktree add --detach $EV $HEAD >/dev/null 2>&1; fi
-git -C $EV checkout -q --detach $HEAD
+git -C $EV clean -fdq evidence >/dev/null 2>&1; git -C $EV checkout -q -f --detach $HEAD || { echo "EVAL WORKTREE CHECKOUT FAILED"; exit 4; }
 git -C /repo worktree add --detach $RW HEAD >/dev/null 2>&1
 if ! git -C $RW apply "$DIR/patch.diff"; then echo "PATCH DOES NOT APPLY"; git -C /repo worktree remove --force $RW; exit 3; fi
 cd $EV
